@@ -120,6 +120,10 @@ def generate(rng: random.Random, tier: str) -> dict:
     else:
         cfg["limits"] = _draw_limits(rng)
         cfg["place"] = rng.choice(["default", "base-exists"])
+    if scen in ("inproc", "cluster"):
+        # domain: S3 part numbers are 1..10000 (the caller's business, like the part budget in C06)
+        top = max(p for t in wl["threads"] for p in (t["parts"] if isinstance(t, dict) else t))
+        wl["part_base"] = max(0, min(int(wl.get("part_base", 0)), 10_000 - top))
     return {"config": cfg, "workload": wl}
 
 
